@@ -23,6 +23,8 @@
 package main
 
 import (
+	"bytes"
+	"compress/zlib"
 	"fmt"
 	"sync/atomic"
 
@@ -354,6 +356,66 @@ func edgeFamily() {
 		rep.Eval(n)
 	})
 	rep.Extra("conn_threshold_edges", map[string]any{"thresholds": edgeThresholds, "packet_sizes": "T-3..T+2 (non-negative), every sequence of length <= 2", "read_fragment_patterns": setupFrags})
+}
+
+// ---------------------------------------------------------------------------------------
+// conn (d2): frame lengths across the width boundaries of the length prefix
+//
+// One connection carries every packet size of a window in ascending order, so the length of the frame on the
+// wire (with compression: data-length field + zlib stream) moves across 127/128 in small steps; a second window
+// is chosen, by compressing the same payloads with compress/zlib here, so that the predicted frame lengths lie
+// within 8 bytes of 16383/16384. The prediction only selects inputs; the oracle is the usual one (every packet
+// arrives intact and in order, nothing is left over).
+
+var widthCases int64
+
+func widthFamily() {
+	small := make([]int, 0, 261)
+	for n := 0; n <= 260; n++ {
+		small = append(small, n)
+	}
+	var big []int
+	for n, k := 15000, 0; n < 30000 && len(big) < 48; n++ {
+		var z bytes.Buffer
+		w := zlib.NewWriter(&z)
+		w.Write([]byte{byte(packetIDs[k%len(packetIDs)])})
+		w.Write(payload(n, k))
+		w.Close()
+		if l := z.Len() + 3; l >= 16383-8 && l <= 16384+8 {
+			big = append(big, n)
+			k++
+		}
+	}
+	if len(big) == 0 {
+		engine.HarnessError("width family: no payload size with a predicted frame length near 16383")
+	}
+	type item struct {
+		t     int
+		sizes []int
+		frag  []int
+		btoa  bool
+	}
+	var items []item
+	for _, t := range []int{-1, 0, 64} {
+		for _, f := range [][]int{{0}, {33, 1}} {
+			for _, d := range []bool{false, true} {
+				items = append(items, item{t, small, f, d})
+				if t >= 0 {
+					items = append(items, item{t, big, f, d})
+				}
+			}
+		}
+	}
+	engine.ParallelFor(len(items), func(_, i int) {
+		it := items[i]
+		c := Case{Part: "conn", KeySize: 16, Prefix: -1, Threshold: it.t, Sizes: it.sizes, BtoA: it.btoa, Frag: it.frag}
+		runConn(&c)
+		atomic.AddInt64(&widthCases, 1)
+		atomic.AddInt64(&connCases, 1)
+		rep.Eval(1)
+	})
+	rep.Extra("conn_frame_width", map[string]any{"thresholds": []int{-1, 0, 64}, "window_1": "every size 0..260 on one connection", "window_2_sizes": big,
+		"window_2": "sizes whose predicted compressed frame length is within 8 of 16383/16384", "read_fragment_patterns": [][]int{{0}, {33, 1}}})
 }
 
 // ---------------------------------------------------------------------------------------
